@@ -2,7 +2,7 @@
 // labels: heads.insert.* heads.encode.* heads.decode.* heads.merge.* heads.has_news_for.*
 // tier: quick
 // bound: head sets with up to 3 of 4 authors, timestamps in {0, 1, 2, u64::MAX}, every size limit 0..=140 (exhaustive); has_news_for and merge
-// over every pair of such head sets (369 x 369)
+// over every pair of such head sets (369 x 369); one set of 140 heads with every limit between the sizes of 124 and 132 heads (length prefix 1 -> 2 bytes)
 // Concrete small-domain check (NOT a proof) of the parts of src/heads.rs that neither Verus nor Kani could take:
 // `AuthorHeads::insert` (BTreeMap entry API; its max-merge contract is ASSUMED by units U-heads-merge / U-heads-store) and
 // `AuthorHeads::encode` (BTreeSet::into_iter().rev() + postcard). Exhaustive over all head sets with up to 3 authors out of
@@ -127,6 +127,26 @@ mod verif_rp_heads_encode {
                 for (author, t) in theirs { let e = wantm.entry(*author).or_insert(*t); if *t > *e { *e = *t; } }
                 assert_eq!(m.heads, wantm, "WITNESS merge of {theirs:?} into {ours:?}");
             }
+        }
+    }
+
+    /// the length prefix of the encoded list grows from one to two bytes at 128 heads: every limit around that boundary
+    #[test]
+    fn encode_limited_around_the_two_byte_length_prefix() {
+        let mut m = BTreeMap::new();
+        for i in 0..140u16 { let mut b = [7u8; 32]; b[0] = (i >> 8) as u8; b[1] = i as u8; m.insert(AuthorId::from(&b), 1_000_000u64 + i as u64); }
+        let h = AuthorHeads { heads: m.clone() };
+        let mut order: Vec<(u64, AuthorId)> = m.iter().map(|(a, t)| (*t, *a)).collect();
+        order.sort(); order.reverse();
+        let size = |k: usize| postcard::to_stdvec(&order[..k].to_vec()).unwrap().len();
+        for limit in size(124)..=size(132) {
+            let enc = match h.encode(Some(limit)) { Ok(e) => e, Err(e) => panic!("WITNESS encode(Some({limit})) of 140 heads fails: {e} (sizes: 127 heads {} bytes, 128 heads {} bytes)", size(127), size(128)) };
+            assert!(enc.len() <= limit, "WITNESS encode(Some({limit})) of 140 heads returns {} bytes", enc.len());
+            let dec = AuthorHeads::decode(&enc).unwrap();
+            let k = dec.len();
+            let want: AuthorHeads = order[..k].iter().cloned().collect();
+            assert_eq!(dec, want, "WITNESS encode(Some({limit})) of 140 heads does not keep the {k} newest");
+            assert!(size(k + 1) > limit, "WITNESS encode(Some({limit})) of 140 heads keeps {k} heads although {} fit ({} bytes)", k + 1, size(k + 1));
         }
     }
 }
